@@ -6,7 +6,7 @@
    scalars, every number of molecules, modes and levels: the bookkeeping of the vibrational state space and
    the product structure of all Hamiltonian and dipole elements. *)
 From Coq Require Import ZArith List Bool Arith Lia.
-From QV Require Import Base.Alg Base.Sums Base.Mat Model.C03 Proofs.C03 Model.C10 Proofs.C10.
+From QV Require Import Base.Alg Base.Sums Base.Mat Model.C03 Proofs.C03 Model.C10 Proofs.C10 Model.C10x Proofs.C10x.
 Import ListNotations.
 
 (* Vibrational signatures of one electronic state (numpy.ndindex over the declared level counts), for every
@@ -104,6 +104,22 @@ Proof.
 Qed.
 Print Assumptions c10_overlaps_within_one_electronic_state_are_delta.
 
+(* The list of sub-modes of an electronic state (ElectronicState.vibmodes, the function vm of the theorems above, collected in
+   ElectronicState.__init__): all modes of molecule 0, then all modes of molecule 1, ...; the entry of mode a of molecule n is the
+   sub-mode belonging to the electronic level nth n s 0 that molecule n is in - for every molecule, also behind molecules without
+   modes; its position and the length of the list do not depend on the electronic state. *)
+Theorem c10_vibrational_modes_follow_the_electronic_state : forall (SM : Type) (submode_of : nat -> nat -> nat -> SM)
+  (nmod : nat -> nat) (N : nat) (s s' : sig) (d : SM),
+  length (vibmodes_of SM submode_of nmod N s) = mode_offset nmod N /\
+  length (vibmodes_of SM submode_of nmod N s) = length (vibmodes_of SM submode_of nmod N s') /\
+  (forall n a, n < N -> a < nmod n ->
+     nth (mode_offset nmod n + a) (vibmodes_of SM submode_of nmod N s) d = submode_of n a (nth n s 0)).
+Proof.
+  intros SM submode_of nmod N s s' d. split; [exact (vibmodes_length SM submode_of nmod N s)|].
+  split; [exact (vibmodes_length_indep SM submode_of nmod N s s')|]. exact (vibmodes_nth SM submode_of nmod N s d).
+Qed.
+Print Assumptions c10_vibrational_modes_follow_the_electronic_state.
+
 (* ---------------- non-vacuity ---------------- *)
 Example c10_example_ndindex :
   ndindex [2; 3] = [[0;0]; [0;1]; [0;2]; [1;0]; [1;1]; [1;2]] /\ rank [2; 3] [1; 1] = 4 /\ ndindex [] = [[]] /\
@@ -115,4 +131,10 @@ Example c10_example_states :
   let vm : sig -> list (@submode ZR nat) := fun s => [@mkSub ZR nat (match nth 0 s 0 with 0 => 2 | _ => 3 end) 1%Z (nth 0 s 0)] in
   map (fun x => (el_index x, vib_sig x)) (vstates nat vm (elsigs [1; 1] 1)) =
   [(0, [0]); (0, [1]); (1, [0]); (1, [1]); (1, [2]); (2, [0]); (2, [1])].
+Proof. vm_compute. reflexivity. Qed.
+
+(* three molecules with 1, 0 and 2 modes in the state (1, 0, 1): the entries are (molecule, mode, level) *)
+Example c10_example_vibmodes :
+  vibmodes_of (nat * nat * nat) (fun n a l => (n, a, l)) (fun n => match n with 0 => 1 | 1 => 0 | _ => 2 end) 3 [1; 0; 1]
+  = [(0, 0, 1); (2, 0, 1); (2, 1, 1)].
 Proof. vm_compute. reflexivity. Qed.
